@@ -81,6 +81,11 @@ func (pp *buffer) AddComment(c string) {
 	// these hacks ensure that Go comments don't insert stray Coq comments
 	c = strings.ReplaceAll(c, "(*", "( *")
 	c = strings.ReplaceAll(c, "*)", "* )")
+	// Coq also lexes string literals inside comments, where an unmatched
+	// quote hides the end of the comment: close it
+	if strings.Count(c, "\"")%2 == 1 {
+		c += "\""
+	}
 	indent := pp.Block("(* ", "%s *)", c)
 	pp.Indent(-indent)
 }
